@@ -13,6 +13,7 @@ Feature switches (dict f):
   encoding      XML encoding of content.xml (UTF-8, UTF-16, ISO-8859-1)
   annotations   every non-empty cell that is not part of a run carries a comment (office:annotation with paragraphs of its own)
   pretty        content.xml indented by a pretty printer (white space between table, row, cell and paragraph elements)
+  sheet_names   names of the sheets (default S1, S2, ...)
   filler        extra non-table content (styles, settings) a real office suite would write
 """
 import zipfile
@@ -136,7 +137,8 @@ def encode_table(rows, f, name):
 
 def content_xml(sheets, f):
     encoding = f.get("encoding", "UTF-8")
-    tables = "".join(encode_table(rows, f, "S%d" % (number + 1)) for number, rows in enumerate(sheets))
+    names = f.get("sheet_names") or ["S%d" % (number + 1) for number in range(len(sheets))]
+    tables = "".join(encode_table(rows, f, names[number % len(names)] + ("" if number < len(names) else str(number))) for number, rows in enumerate(sheets))
     filler = ""
     if f.get("filler"):
         filler = '<office:automatic-styles><style:style style:name="co1" style:family="table-column"/></office:automatic-styles>'
